@@ -1,14 +1,20 @@
 """
 Fork-based parallel map. Workers inherit the parent's memory (model, facts, configurations), so only
-task indices go in and plain result records come out. Falls back to a sequential map.
+task indices go in and plain result records come out. Falls back to a sequential map. Re-entrant:
+a nested pmap (inside a worker, or when forking is disabled) runs sequentially.
 """
 import os
 
-_STATE = {}
+_JOBS = {}
+_IN_WORKER = False
 
 
-def _call(i):
-    return _STATE['func'](_STATE['items'][i])
+def _call(arg):
+    global _IN_WORKER
+    _IN_WORKER = True
+    key, i = arg
+    func, items = _JOBS[key]
+    return func(items[i])
 
 
 def pmap(func, items, jobs=None):
@@ -16,14 +22,17 @@ def pmap(func, items, jobs=None):
     if not items:
         return []
     jobs = jobs or min(16, os.cpu_count() or 1)
-    _STATE['func'] = func
-    _STATE['items'] = items
-    if jobs > 1 and len(items) > 1 and os.environ.get('VERIF_NO_FORK') != '1':
-        try:
-            import multiprocessing
-            ctx = multiprocessing.get_context('fork')
-            with ctx.Pool(min(jobs, len(items))) as pool:
-                return pool.map(_call, range(len(items)), chunksize=1)
-        except (OSError, ImportError, ValueError):
-            pass
-    return [func(x) for x in items]
+    if _IN_WORKER or jobs <= 1 or len(items) <= 1 or os.environ.get('VERIF_NO_FORK') == '1':
+        return [func(x) for x in items]
+    key = object()
+    key = id(key)
+    _JOBS[key] = (func, items)
+    try:
+        import multiprocessing
+        ctx = multiprocessing.get_context('fork')
+        with ctx.Pool(min(jobs, len(items))) as pool:
+            return pool.map(_call, [(key, i) for i in range(len(items))], chunksize=1)
+    except (OSError, ImportError, ValueError):
+        return [func(x) for x in items]
+    finally:
+        _JOBS.pop(key, None)
